@@ -125,7 +125,7 @@ def xattr_path_ok(path):
 # ----------------------------------------------------------------------------------------------------------------
 # options
 
-def rnd_extra(rng, comp):
+def rnd_extra(rng, comp, bs=131072):
     if comp == "gzip":
         parts = []
         if rng.random() < 0.6:
@@ -139,7 +139,8 @@ def rnd_extra(rng, comp):
         if rng.random() < 0.4:
             parts.append("level=%d" % rng.randint(0, 9))
         if rng.random() < 0.4:
-            parts.append("dictsize=" + rng.choice(["50%", "100%", "8K", "4096", "1M", "32K"]))
+            # accepted range (not documented by -X help): 8 KiB .. 1 MiB
+            parts.append("dictsize=" + rng.choice((["50%", "100%"] if bs >= 16384 else ["200%"] if bs >= 4096 else []) + ["8K", "8192", "1M", "32K", "1048576"]))
         if rng.random() < 0.3:
             lc = rng.randint(0, 4)
             parts.append("lc=%d" % lc)
@@ -163,10 +164,7 @@ def rnd_opts(rng, mode, comp=None, bs=None, plain=False):
     if plain:
         return o
     if rng.random() < 0.35:
-        o["X"] = rnd_extra(rng, comp)
-        if o["X"] and "dictsize" in o["X"]:
-            # the dictionary may not be larger than ... nothing documented; keep sizes that any block size accepts
-            pass
+        o["X"] = rnd_extra(rng, comp, o["bs"])
         if not o["X"]:
             del o["X"]
     for k, pr in (("T", 0.25), ("e", 0.3), ("f", 0.2), ("long", 0.2)):
